@@ -5,6 +5,7 @@ import numpy as np
 from mc import alphabet as A
 from mc.refmodels import mixtures as M
 
+REGULAR_KINDS_ = ('generic', 'near_unit', 'emb_offset')      # data kinds on which no exception is acceptable
 DEGENERATE_KINDS = ('zero_frame', 'all_zero', 'duplicated', 'rank1', 'n_lt_d', 'n1',
                     'scale_hi', 'scale_lo', 'mixed_scale')
 
@@ -22,8 +23,14 @@ def make_observation(seed, lead, N, D, kind, complex_, tag):
     elif kind == 'n_lt_d':
         N = max(1, D - 1)
     y = A.generic_data(seed, lead + (N, D), 'obs', tag, complex_=complex_)
-    if kind == 'generic':
+    if kind in ('generic', 'emb_offset'):
         pass
+    elif kind == 'near_unit':
+        # frames concentrated around two directions, every frame ALMOST of unit length (1 +- 8e-6, none exactly)
+        r = A.rng(seed, 'near_unit', lead, N, tag)
+        proto = y[..., :2, :]
+        y = proto[..., np.arange(N) % 2, :] + 0.03 * y
+        y = y / np.linalg.norm(y, axis=-1, keepdims=True) * (1 + 4e-6 * r.choice([-2.0, -1.0, 1.0, 2.0], size=lead + (N, 1)))
     elif kind == 'zero_frame':
         y[..., 0, :] = 0
     elif kind == 'all_zero':
